@@ -647,6 +647,20 @@ func (s *Service) streamResponse(clientCtx, upstreamCtx context.Context, w http.
 	readDeadline := time.NewTimer(s.configuration.GetReadTimeout())
 	defer readDeadline.Stop()
 
+	// The timer above is only consulted between reads, while the Read in processStreamData blocks
+	// for as long as the backend stays silent. Arm a watchdog around every Read that closes the
+	// body once the read timeout has passed without data, so a stalled backend is cut off.
+	readTimeout := s.configuration.GetReadTimeout()
+	var stalled atomic.Bool
+	body := resp.Body
+	watchdog := time.AfterFunc(readTimeout, func() {
+		stalled.Store(true)
+		_ = body.Close()
+	})
+	watchdog.Stop()
+	defer watchdog.Stop()
+	resp.Body = &watchedBody{ReadCloser: body, watchdog: watchdog, timeout: readTimeout}
+
 	for {
 		// Check for context cancellation
 		if err := s.checkContexts(clientCtx, upstreamCtx, readDeadline, state, rlog); err != nil {
@@ -667,6 +681,9 @@ func (s *Service) streamResponse(clientCtx, upstreamCtx context.Context, w http.
 
 		// Read and process data
 		if err := s.processStreamData(resp, buffer, state, w, isStreaming, rc, rlog); err != nil {
+			if stalled.Load() {
+				return state.totalBytes, state.lastChunk, fmt.Errorf("read timeout after %v", readTimeout)
+			}
 			if errors.Is(err, io.EOF) {
 				return state.totalBytes, state.lastChunk, nil
 			}
@@ -674,6 +691,19 @@ func (s *Service) streamResponse(clientCtx, upstreamCtx context.Context, w http.
 			return state.totalBytes, state.lastChunk, err
 		}
 	}
+}
+
+// watchedBody arms a watchdog for the duration of each Read
+type watchedBody struct {
+	io.ReadCloser
+	watchdog *time.Timer
+	timeout  time.Duration
+}
+
+func (b *watchedBody) Read(p []byte) (int, error) {
+	b.watchdog.Reset(b.timeout)
+	defer b.watchdog.Stop()
+	return b.ReadCloser.Read(p)
 }
 
 // GetStats returns current proxy statistics
